@@ -1,6 +1,6 @@
 (* Proofs for C16: SQL expression semantics, normaliser, generators vs documented predicates,
    CASE level assignment, levels_ok. *)
-From Coq Require Import String Ascii Bool ZArith QArith Qabs Arith Lia List.
+From Coq Require Import String Ascii Bool ZArith QArith Qabs Arith Lia Lqa List.
 From Splinkv Require Import Base.TV Model.SqlExpr Model.Levels.
 Import ListNotations.
 Local Open Scope nat_scope.
@@ -458,7 +458,7 @@ Proof.
   exists (pick outs). split; [apply pick_chosen|]. intros k Hk. symmetry. now apply chosen_unique.
 Qed.
 
-(* ------------------------------------------------------------------ levels_ok *)
+(* ------------------------------------------------------------------ levels_ok0 *)
 Lemma Qlt_b_spec a b : Qlt_b a b = true <-> (a < b)%Q.
 Proof.
   unfold Qlt_b. rewrite negb_true_iff. split.
@@ -520,13 +520,13 @@ Proof.
   - cbn in Hi. apply (IH H2 i j li lj); [lia|exact Hi|exact Hj].
 Qed.
 
-Lemma levels_ok_ordered ls : levels_ok ls = true -> ordered_ok ls = true.
+Lemma levels_ok_ordered ls : levels_ok0 ls = true -> ordered_ok ls = true.
 Proof.
-  destruct ls as [|f r]; [discriminate|]. unfold levels_ok. intros H.
+  destruct ls as [|f r]; [discriminate|]. unfold levels_ok0. intros H.
   repeat match goal with H : _ && _ = true |- _ => apply andb_true_iff in H as [H ?] end. assumption.
 Qed.
 
-Lemma levels_ok_stricter ls : levels_ok ls = true ->
+Lemma levels_ok_stricter ls : levels_ok0 ls = true ->
   forall i j li lj op lhs ti tj, i < j -> nth_error ls i = Some li -> nth_error ls j = Some lj ->
     In (op, lhs, ti) (cond_atoms li) -> In (op, lhs, tj) (cond_atoms lj) -> stricter op ti tj = true.
 Proof.
@@ -537,12 +537,12 @@ Proof.
 Qed.
 
 (* shape facts *)
-Lemma levels_ok_shape ls : levels_ok ls = true ->
+Lemma levels_ok_shape ls : levels_ok0 ls = true ->
   exists e0 mid, ls = {| l_null := true; l_cond := Some e0 |} :: mid ++ [{| l_null := false; l_cond := None |}]
     /\ null_shape e0 = true
     /\ Forall (fun l => l_null l = false /\ l_cond l <> None) mid.
 Proof.
-  destruct ls as [|[n0 c0] r]; [discriminate|]. unfold levels_ok. cbn [l_null l_cond is_else]. intros H.
+  destruct ls as [|[n0 c0] r]; [discriminate|]. unfold levels_ok0. cbn [l_null l_cond is_else]. intros H.
   repeat match goal with H : _ && _ = true |- _ => apply andb_true_iff in H as [H ?] end.
   destruct c0 as [e0|]; [|discriminate]. destruct n0; [|discriminate].
   destruct (rev r) as [|lastl mid'] eqn:Er; [discriminate|].
@@ -569,7 +569,7 @@ Proof.
   destruct (l_cond l); [|congruence]. cbn. now rewrite IH.
 Qed.
 
-Lemma levels_ok_conds_length ls : levels_ok ls = true -> S (length (conds ls)) = length ls.
+Lemma levels_ok_conds_length ls : levels_ok0 ls = true -> S (length (conds ls)) = length ls.
 Proof.
   intros H. destruct (levels_ok_shape ls H) as (e0 & mid & -> & _ & Hm).
   change (?a :: mid ++ ?b) with ([a] ++ mid ++ b). rewrite !conds_app, !app_length, (conds_length_mid mid Hm).
@@ -634,7 +634,7 @@ Proof.
   - exists tj. apply stricter_witness; auto.
 Qed.
 
-Lemma levels_ok_no_shadow ls : levels_ok ls = true ->
+Lemma levels_ok_no_shadow ls : levels_ok0 ls = true ->
   forall i j li lj op lhs ti tj, i < j -> nth_error ls i = Some li -> nth_error ls j = Some lj ->
     In (op, lhs, ti) (cond_atoms li) -> In (op, lhs, tj) (cond_atoms lj) ->
     (forall v, sat op ti v = true -> sat op tj v = true) /\
@@ -653,7 +653,7 @@ Proof.
   pose proof (atoms_necessary P fenv env e HT op lhs ti v Ii Hq). congruence.
 Qed.
 
-Lemma levels_ok_level_of ls P fenv env : levels_ok ls = true -> level_of P fenv env ls < length ls.
+Lemma levels_ok_level_of ls P fenv env : levels_ok0 ls = true -> level_of P fenv env ls < length ls.
 Proof.
   intros H. unfold level_of. pose proof (pick_le (map (sem P fenv env) (conds ls))) as Hp.
   rewrite map_length in Hp. pose proof (levels_ok_conds_length ls H). lia.
@@ -859,25 +859,47 @@ Section Km.
   Qed.
 End Km.
 
-(* ------------------------------------------------------------------ Levenshtein DP vs the recursive definition (bounded) *)
-Fixpoint lists_len (alphabet : list nat) (n : nat) : list (list nat) :=
-  match n with
-  | O => [[]]
-  | S k => flat_map (fun l => map (fun c => c :: l) alphabet) (lists_len alphabet k)
-  end.
-Definition lists_upto (alphabet : list nat) (n : nat) : list (list nat) :=
-  flat_map (lists_len alphabet) (seq 0 (S n)).
-Definition lev_agree_on (ls : list (list nat)) : bool :=
-  forallb (fun s => forallb (fun t => Nat.eqb (lev_list Nat.eqb s t) (lev_spec Nat.eqb s t)) ls) ls.
+(* ------------------------------------------------------------------ Levenshtein DP = the recursive definition (all lists) *)
+Section LevProof.
+  Context {A : Type} (eqA : A -> A -> bool).
+  Notation ls := (lev_spec eqA).
 
-Lemma lev_dp_matches_spec_bounded :
-  forall s t, In s (lists_upto [0; 1; 2] 4) -> In t (lists_upto [0; 1; 2] 4) ->
-    lev_list Nat.eqb s t = lev_spec Nat.eqb s t.
-Proof.
-  assert (H : lev_agree_on (lists_upto [0; 1; 2] 4) = true) by (vm_compute; reflexivity).
-  intros s t Hs Ht. unfold lev_agree_on in H. rewrite forallb_forall in H. specialize (H s Hs).
-  rewrite forallb_forall in H. specialize (H t Ht). now apply Nat.eqb_eq.
-Qed.
+  Lemma lev_spec_nil_r s : ls s [] = length s.
+  Proof. destruct s; reflexivity. Qed.
+  Lemma lev_spec_cons a s b t :
+    ls (a :: s) (b :: t) = Nat.min (Nat.min (S (ls s (b :: t))) (S (ls (a :: s) t))) (ls s t + sub_cost eqA a b).
+  Proof. reflexivity. Qed.
+
+  (* the row the programme should hold for s: lev_spec s against every suffix of t *)
+  Fixpoint rowspec (s t : list A) : list nat :=
+    match t with
+    | [] => [ls s []]
+    | _ :: t' => ls s t :: rowspec s t'
+    end.
+  Lemma rowspec_hd s t : exists r, rowspec s t = ls s t :: r.
+  Proof. destruct t; cbn [rowspec]; eauto. Qed.
+
+  Lemma lev_base_spec t : lev_base t = rowspec [] t.
+  Proof. induction t as [|x t IH]; cbn [lev_base rowspec]; [reflexivity|]. now rewrite IH. Qed.
+
+  Lemma lev_row_spec c u t : lev_row eqA c t (rowspec u t) = rowspec (c :: u) t.
+  Proof.
+    induction t as [|tj t IH]; cbn [rowspec lev_row].
+    - now rewrite !lev_spec_nil_r.
+    - rewrite IH. destruct (rowspec_hd (c :: u) t) as [r Hr]. destruct (rowspec_hd u t) as [r' Hr'].
+      rewrite Hr, Hr'. now rewrite lev_spec_cons.
+  Qed.
+
+  Lemma lev_rows_spec s t : lev_rows eqA s t = rowspec s t.
+  Proof.
+    induction s as [|c s IH]; unfold lev_rows in *; cbn [fold_right].
+    - apply lev_base_spec.
+    - rewrite IH. apply lev_row_spec.
+  Qed.
+
+  Theorem lev_list_spec s t : lev_list eqA s t = ls s t.
+  Proof. unfold lev_list. rewrite lev_rows_spec. destruct (rowspec_hd s t) as [r ->]. reflexivity. Qed.
+End LevProof.
 
 (* ------------------------------------------------------------------ pairwise array levels *)
 Lemma Qle_bool_trans a b c : Qle_bool a b = true -> Qle_bool b c = true -> Qle_bool a c = true.
@@ -1092,4 +1114,233 @@ Proof.
     + injection Hn as <-. injection He as <- <-. split; [now apply Bool.eqb_prop|].
       destruct (l_cond l), c; try discriminate; auto. intros P fenv env. now apply same_expr_sound.
     + eapply Hi; eauto.
+Qed.
+
+(* ------------------------------------------------------------------ Jaccard = |A n B| / |A u B| on the character sets *)
+Lemma mem_ascii_In c l : mem_ascii c l = true <-> In c l.
+Proof.
+  unfold mem_ascii. rewrite existsb_exists. split.
+  - intros (x & Hx & E). apply Ascii.eqb_eq in E. now subst.
+  - intros H. exists c. split; [exact H|apply Ascii.eqb_refl].
+Qed.
+Lemma dedup_In x l : In x (dedup l) <-> In x l.
+Proof.
+  induction l as [|s t IH]; cbn; [tauto|]. destruct (mem_ascii s t) eqn:E.
+  - rewrite IH. split; [tauto|]. intros [<-|H]; [now apply mem_ascii_In|exact H].
+  - cbn. rewrite IH. tauto.
+Qed.
+Lemma dedup_NoDup l : NoDup (dedup l).
+Proof.
+  induction l as [|s t IH]; cbn; [constructor|]. destruct (mem_ascii s t) eqn:E; [exact IH|].
+  constructor; [|exact IH]. rewrite dedup_In. intros H. apply mem_ascii_In in H. congruence.
+Qed.
+Lemma NoDup_app_disjoint {A} (l1 l2 : list A) :
+  NoDup l1 -> NoDup l2 -> (forall x, In x l1 -> ~ In x l2) -> NoDup (l1 ++ l2).
+Proof.
+  induction 1 as [|x l1 Hx Hn IH]; intros H2 Hd; cbn; [exact H2|].
+  constructor.
+  - rewrite in_app_iff. intros [H|H]; [contradiction|]. apply (Hd x); [now left|exact H].
+  - apply IH; [exact H2|]. intros y Hy. apply Hd. now right.
+Qed.
+Lemma filter_partition_length {A} (p : A -> bool) l :
+  length (filter p l) + length (filter (fun x => negb (p x)) l) = length l.
+Proof. induction l as [|x t IH]; cbn; [reflexivity|]. destruct (p x); cbn; lia. Qed.
+
+Lemma jaccard_spec a b :
+  let la := list_ascii_of_string a in let lb := list_ascii_of_string b in
+  exists I U : list ascii,
+    NoDup I /\ NoDup U /\
+    (forall c, In c I <-> In c la /\ In c lb) /\
+    (forall c, In c U <-> In c la \/ In c lb) /\
+    jaccard a b = Qred (inject_Z (Z.of_nat (length I)) / inject_Z (Z.of_nat (length U))).
+Proof.
+  intros la lb. unfold jaccard. fold la lb.
+  set (sa := dedup la). set (sb := dedup lb).
+  set (I := filter (fun c => mem_ascii c sb) sa).
+  set (J := filter (fun c => mem_ascii c sa) sb).
+  set (R := filter (fun c => negb (mem_ascii c sa)) sb).
+  assert (Na : NoDup sa) by apply dedup_NoDup. assert (Nb : NoDup sb) by apply dedup_NoDup.
+  assert (HI : forall c, In c I <-> In c la /\ In c lb).
+  { intros c. unfold I. rewrite filter_In, mem_ascii_In. unfold sa, sb. rewrite !dedup_In. tauto. }
+  assert (HJ : forall c, In c J <-> In c la /\ In c lb).
+  { intros c. unfold J. rewrite filter_In, mem_ascii_In. unfold sa, sb. rewrite !dedup_In. tauto. }
+  assert (NI : NoDup I) by (now apply NoDup_filter). assert (NJ : NoDup J) by (now apply NoDup_filter).
+  assert (LIJ : length I = length J).
+  { apply Nat.le_antisymm; apply NoDup_incl_length; auto; intros c Hc; [apply HJ, HI, Hc|apply HI, HJ, Hc]. }
+  exists I, (sa ++ R). split; [exact NI|]. split.
+  - apply NoDup_app_disjoint; [exact Na|now apply NoDup_filter|].
+    intros c Hc Hr. unfold R in Hr. apply filter_In in Hr as [_ Hr]. apply negb_true_iff in Hr.
+    apply mem_ascii_In in Hc. congruence.
+  - split; [exact HI|]. split.
+    + intros c. rewrite in_app_iff.
+      assert (Hsa : In c sa <-> In c la) by apply dedup_In.
+      assert (Hsb : In c sb <-> In c lb) by apply dedup_In.
+      unfold R. rewrite filter_In, negb_true_iff. split.
+      * intros [H|[H _]]; [left; now apply Hsa|right; now apply Hsb].
+      * intros [H|H]; [left; now apply Hsa|]. destruct (mem_ascii c sa) eqn:E.
+        -- left. now apply mem_ascii_In.
+        -- right. split; [now apply Hsb|reflexivity].
+    + pose proof (filter_partition_length (fun c => mem_ascii c sa) sb) as HP. cbv beta in HP. fold J in HP. fold R in HP.
+      rewrite app_length. replace (length sa + length sb - length I) with (length sa + length R) by lia. reflexivity.
+Qed.
+
+(* ------------------------------------------------------------------ Jaro: range; Jaro-Winkler >= Jaro *)
+Definition cnt (used : list bool) : nat := length (filter (fun b : bool => b) used).
+
+Lemma find_match_spec c t : forall used lo hi idx j,
+  find_match c t used lo hi idx = Some j -> exists k, j = idx + k /\ nth_error used k = Some false.
+Proof.
+  induction t as [|tc t IH]; intros [|u used] lo hi idx j H; cbn in H; try discriminate.
+  destruct (Nat.leb lo idx && Nat.leb idx hi && negb u && Ascii.eqb c tc)%bool eqn:E.
+  - injection H as <-. exists 0. split; [lia|]. cbn.
+    apply andb_true_iff in E as [E _]. apply andb_true_iff in E as [_ E]. apply negb_true_iff in E. now subst.
+  - apply IH in H as (k & -> & Hk). exists (S k). split; [lia|exact Hk].
+Qed.
+
+Lemma set_nth_cnt : forall k used, nth_error used k = Some false ->
+  cnt (set_nth k used) = S (cnt used) /\ length (set_nth k used) = length used.
+Proof.
+  induction k as [|k IH]; intros [|u used] H; cbn in H; try discriminate.
+  - injection H as ->. split; reflexivity.
+  - destruct (IH used H) as [H1 H2]. unfold cnt in *. cbn. destruct u; cbn; rewrite ?H1, ?H2; split; reflexivity.
+Qed.
+
+Lemma jaro_scan_cnt t win : forall s used i,
+  cnt (snd (jaro_scan s t used win i)) = cnt used + length (fst (jaro_scan s t used win i)) /\
+  length (snd (jaro_scan s t used win i)) = length used /\
+  length (fst (jaro_scan s t used win i)) <= length s.
+Proof.
+  induction s as [|c s IH]; intros used i; cbn [jaro_scan].
+  - cbn [fst snd length]. repeat split; lia.
+  - destruct (find_match c t used (i - win) (i + win) 0) as [j|] eqn:E.
+    + apply find_match_spec in E as (k & -> & Hk). cbn [Nat.add] in *.
+      destruct (set_nth_cnt k used Hk) as [C1 C2].
+      destruct (IH (set_nth k used) (S i)) as (H1 & H2 & H3). cbn [fst snd length].
+      rewrite H1, H2, C1, C2. repeat split; lia.
+    + destruct (IH used (S i)) as (H1 & H2 & H3). cbn [length]. repeat split; try assumption; lia.
+Qed.
+
+Lemma mismatches_le a : forall b, mismatches a b <= length a.
+Proof.
+  induction a as [|x a IH]; intros [|y b]; cbn; try lia. specialize (IH b). destruct (Ascii.eqb x y); lia.
+Qed.
+
+Lemma cnt_all_false {A} (t : list A) : cnt (map (fun _ => false) t) = 0 /\ length (map (fun _ : A => false) t) = length t.
+Proof. split; [induction t; cbn; auto|apply map_length]. Qed.
+
+Lemma qnat_ratio a b : (0 < b)%nat -> (a <= b)%nat ->
+  (0 <= inject_Z (Z.of_nat a) / inject_Z (Z.of_nat b) <= 1)%Q.
+Proof.
+  intros Hb Hab.
+  assert (Pb : (0 < inject_Z (Z.of_nat b))%Q) by (change 0%Q with (inject_Z 0); rewrite <- Zlt_Qlt; lia).
+  assert (Pa : (0 <= inject_Z (Z.of_nat a))%Q) by (change 0%Q with (inject_Z 0); rewrite <- Zle_Qle; lia).
+  assert (Pab : (inject_Z (Z.of_nat a) <= inject_Z (Z.of_nat b))%Q) by (rewrite <- Zle_Qle; lia).
+  split.
+  - apply Qle_shift_div_l; [exact Pb|]. now rewrite Qmult_0_l.
+  - apply Qle_shift_div_r; [exact Pb|]. now rewrite Qmult_1_l.
+Qed.
+
+Lemma jaro_list_range s t : (0 <= jaro_list s t <= 1)%Q.
+Proof.
+  unfold jaro_list.
+  destruct (Nat.eqb (length s) 0 || Nat.eqb (length t) 0)%bool eqn:E0; [split; discriminate|].
+  apply orb_false_iff in E0 as [Es Et]. apply Nat.eqb_neq in Es. apply Nat.eqb_neq in Et.
+  set (win := Nat.max (length s) (length t) / 2 - 1).
+  set (r := jaro_scan s t (map (fun _ => false) t) win 0).
+  destruct (jaro_scan_cnt t win s (map (fun _ => false) t) 0) as (H1 & H2 & H3). fold r in H1, H2, H3.
+  destruct (cnt_all_false t) as [C0 L0]. rewrite C0 in H1. rewrite L0 in H2. cbn [Nat.add] in H1.
+  set (m := length (fst r)) in *.
+  destruct (Nat.eqb m 0) eqn:Em; [split; discriminate|]. apply Nat.eqb_neq in Em.
+  assert (Hmt : m <= length t).
+  { rewrite <- H1, <- H2. unfold cnt. apply filter_len_le. }
+  set (tr := mismatches (fst r) (select t (snd r)) / 2).
+  assert (Htr : tr <= m).
+  { unfold tr. pose proof (mismatches_le (fst r) (select t (snd r))). fold m in H.
+    pose proof (Nat.div_le_upper_bound (mismatches (fst r) (select t (snd r))) 2 m). lia. }
+  rewrite Qred_correct.
+  pose proof (qnat_ratio m (length s)) as R1. pose proof (qnat_ratio m (length t)) as R2.
+  pose proof (qnat_ratio (m - tr) m) as R3.
+  assert (E3 : (inject_Z (Z.of_nat m) - inject_Z (Z.of_nat tr) == inject_Z (Z.of_nat (m - tr)))%Q).
+  { rewrite Nat2Z.inj_sub by exact Htr. now rewrite inject_Z_minus. }
+  destruct R1 as [A1 B1]; [lia|exact H3|]. destruct R2 as [A2 B2]; [lia|exact Hmt|]. destruct R3 as [A3 B3]; [lia|lia|].
+  rewrite <- E3 in A3, B3.
+  generalize dependent (inject_Z (Z.of_nat m) / inject_Z (Z.of_nat (length s)))%Q. intros x A1 B1.
+  generalize dependent (inject_Z (Z.of_nat m) / inject_Z (Z.of_nat (length t)))%Q. intros y A2 B2.
+  generalize dependent ((inject_Z (Z.of_nat m) - inject_Z (Z.of_nat tr)) / inject_Z (Z.of_nat m))%Q. intros z A3 B3.
+  split.
+  - apply Qle_shift_div_l; [reflexivity|]. lra.
+  - apply Qle_shift_div_r; [reflexivity|]. lra.
+Qed.
+
+Lemma jaro_range a b : (0 <= jaro a b <= 1)%Q.
+Proof. apply jaro_list_range. Qed.
+
+Lemma jaro_winkler_ge_jaro a b : (jaro a b <= jaro_winkler a b)%Q /\ (jaro_winkler a b <= 1)%Q.
+Proof.
+  unfold jaro_winkler. destruct (jaro_range a b) as [J0 J1].
+  destruct (Qle_bool (jaro a b) (7 # 10)); [split; [apply Qle_refl|exact J1]|].
+  rewrite Qred_correct.
+  set (l := common_prefix (list_ascii_of_string a) (list_ascii_of_string b) 4).
+  assert (Hl : l <= 4).
+  { unfold l. generalize (list_ascii_of_string a) (list_ascii_of_string b). generalize 4.
+    induction n as [|n IH]; intros [|x u] [|y v]; cbn; try lia. destruct (Ascii.eqb x y); [specialize (IH u v)|]; lia. }
+  assert (L0 : (0 <= inject_Z (Z.of_nat l))%Q) by (change 0%Q with (inject_Z 0); rewrite <- Zle_Qle; lia).
+  assert (L4 : (inject_Z (Z.of_nat l) <= 4)%Q) by (change 4%Q with (inject_Z 4); rewrite <- Zle_Qle; lia).
+  split; nra.
+Qed.
+
+(* ------------------------------------------------------------------ null level = units over the compared columns *)
+Lemma isnull_arg_some e x : isnull_arg e = Some x -> e = EIsNull x.
+Proof. destruct e; cbn; try discriminate. now intros [= ->]. Qed.
+
+Lemma comb_some {A} (x y : option (list A)) us : comb x y = Some us -> exists a b, x = Some a /\ y = Some b /\ us = a ++ b.
+Proof. destruct x, y; cbn; try discriminate. intros [= <-]. eauto. Qed.
+
+(* every tested value present -> the null level is FALSE; in every unit a value missing -> TRUE *)
+Lemma null_units_sem P fenv env e : forall us, null_units e = Some us ->
+  ((forall u, In u us -> eval P fenv env (fst u) <> VNull /\ eval P fenv env (snd u) <> VNull) -> sem P fenv env e = F) /\
+  ((forall u, In u us -> eval P fenv env (fst u) = VNull \/ eval P fenv env (snd u) = VNull) -> sem P fenv env e = T).
+Proof.
+  induction e using expr_ind2; cbn [null_units]; intros us Hnu; try discriminate.
+  - (* and *)
+    apply comb_some in Hnu as (a & b & Ha & Hb & ->). destruct (IHe1 a Ha) as [F1 T1]. destruct (IHe2 b Hb) as [F2 T2].
+    rewrite sem_and. split; intros Hu.
+    + rewrite F1 by (intros u Hin; apply Hu, in_or_app; now left). reflexivity.
+    + rewrite T1, T2; [reflexivity| |]; intros u Hin; apply Hu, in_or_app; [now right|now left].
+  - (* or *)
+    destruct (isnull_arg e1) as [x|] eqn:E1; [destruct (isnull_arg e2) as [y|] eqn:E2|].
+    + injection Hnu as <-. apply isnull_arg_some in E1. apply isnull_arg_some in E2. subst e1 e2.
+      rewrite sem_or, !sem_isnull. split; intros Hu.
+      * destruct (Hu _ (or_introl eq_refl)) as [A B]. cbn [fst snd] in A, B. rewrite eval_strip in A, B.
+        destruct (eval P fenv env x), (eval P fenv env y); try reflexivity; congruence.
+      * destruct (Hu _ (or_introl eq_refl)) as [A|A]; cbn [fst snd] in A; rewrite eval_strip in A; rewrite A; cbn;
+          [reflexivity|destruct (is_null (eval P fenv env x)); reflexivity].
+    + apply comb_some in Hnu as (a & b & Ha & Hb & ->). destruct (IHe1 a Ha) as [F1 T1]. destruct (IHe2 b Hb) as [F2 T2].
+      rewrite sem_or. split; intros Hu.
+      * rewrite F1, F2; [reflexivity| |]; intros u Hin; apply Hu, in_or_app; [now right|now left].
+      * rewrite T1 by (intros u Hin; apply Hu, in_or_app; now left). reflexivity.
+    + apply comb_some in Hnu as (a & b & Ha & Hb & ->). destruct (IHe1 a Ha) as [F1 T1]. destruct (IHe2 b Hb) as [F2 T2].
+      rewrite sem_or. split; intros Hu.
+      * rewrite F1, F2; [reflexivity| |]; intros u Hin; apply Hu, in_or_app; [now right|now left].
+      * rewrite T1 by (intros u Hin; apply Hu, in_or_app; now left). reflexivity.
+  - (* paren *) rewrite sem_paren. auto.
+Qed.
+
+Lemma null_level_ok_sound ls : null_level_ok ls = true ->
+  exists e0 rest us, ls = {| l_null := l_null (hd {| l_null := true; l_cond := None |} ls); l_cond := Some e0 |} :: rest /\
+    null_units e0 = Some us /\ us <> [] /\
+    forall u, In u us ->
+      set_side true (fst u) = fst u /\ snd u = set_side false (fst u) /\ col_names (fst u) <> [] /\
+      forall c, In c (col_names (fst u)) -> In c (flat_map col_names (conds rest)).
+Proof.
+  destruct ls as [|[n0 c0] rest]; [discriminate|]. unfold null_level_ok. cbn [l_cond hd l_null].
+  destruct c0 as [e0|]; [|discriminate]. destruct (null_units e0) as [us|] eqn:E; [|discriminate].
+  intros H. apply andb_true_iff in H as [Hne Hall]. exists e0, rest, us. split; [reflexivity|]. split; [exact E|]. split.
+  - destruct us; [discriminate|discriminate].
+  - intros u Hu. rewrite forallb_forall in Hall. specialize (Hall u Hu). unfold unit_ok in Hall.
+    repeat match goal with H : _ && _ = true |- _ => apply andb_true_iff in H as [H ?] end.
+    apply expr_eqb_eq in Hall. apply expr_eqb_eq in H1. split; [exact Hall|]. split; [now symmetry|]. split.
+    + destruct (col_names (fst u)); [discriminate|discriminate].
+    + intros c Hc. rewrite forallb_forall in H. specialize (H c Hc). apply existsb_exists in H as (c' & Hin & Ec).
+      apply String.eqb_eq in Ec. now subst.
 Qed.
